@@ -453,6 +453,8 @@ func (c *runner) flagsNeeded(kind string) []string {
 		return []string{"filter.matched", "filter.none", "matches.true", "matches.false"}
 	case "txt":
 		return []string{"txt.answer"}
+	case "question":
+		return []string{"question.none"}
 	case "boundary", "suffixrule":
 		return []string{"filter.matched", "filter.none"}
 	default:
@@ -970,7 +972,7 @@ func (c *runner) opTXT(qname string, qt uint16) {
 	rep := c.replayWith("txt", qname, qt)
 	if perr != nil || out.Err != nil || out.Resp == nil {
 		c.r.Violate("txt-query-failed", fmt.Sprintf("question %q type %d: panic %v err %v resp %v", qname, qt, perr, out.Err, out.Resp), rep)
-		c.add(fmt.Sprintf("txt %s %d", hx(host), qt), "failed", -1)
+		c.add(fmt.Sprintf("qtxt %s %d", hx(dns.Fqdn(qname)), qt), "failed", -1)
 
 		return
 	}
@@ -1032,7 +1034,12 @@ func (c *runner) opTXT(qname string, qt uint16) {
 			c.flag("txt.refused")
 		}
 	}
-	c.add(fmt.Sprintf("txt %s %d", hx(host), qt), real, 1)
+	if qname != host {
+		c.r.Count("txt.question_not_normalised")
+	}
+	// The model gets the question name as sent (case, final dot) and
+	// normalises it itself.
+	c.add(fmt.Sprintf("qtxt %s %d", hx(dns.Fqdn(qname)), qt), real, 1)
 }
 
 // --- generators ---
@@ -1389,6 +1396,27 @@ func txtCampaign(c *runner, rng *rand.Rand, n int) {
 			}
 			c.opMBP(strings.Join(parts, ".") + c.e.sufs[0])
 			c.r.Count("mbp.many_pieces")
+		}
+		// Names next to a hash-prefix query that are not one: the suffix
+		// without its leading dot (alone, and as the tail of a longer label),
+		// the suffix cut short or extended, the suffix in the middle.
+		for _, suf := range c.e.sufs {
+			bare := strings.TrimPrefix(suf, ".")
+			_, tail, _ := strings.Cut(bare, ".")
+			for _, nm := range []string{bare, "x" + bare, "abcd" + bare, tail, "abcd." + tail, bare + ".example", "abcd" + suf + ".example",
+				"abcd" + suf[:len(suf)-1], "abcd" + suf + "x", "abcd.x" + bare} {
+				if rng.IntN(4) > 0 {
+					continue
+				}
+				c.r.Count("txt.near_miss_name")
+				c.opMBP(nm)
+				if rng.IntN(3) == 0 {
+					nm = strings.ToUpper(nm)
+				}
+				if validQName(nm) {
+					c.opTXT(nm, dns.TypeTXT)
+				}
+			}
 		}
 		// Direct API only: empty prefix string, empty pieces.
 		for _, s := range []string{"", ".", "abcd.", ".abcd", "abcd..abcd"} {
@@ -2598,6 +2626,8 @@ func main() {
 		"x qtype grid; snapshot: versions of one list differing in the number of names under each of 1-44 hash prefixes, installed by " +
 		"Storage.Reset / Filter.Refresh while Storage.Hashes, MatchByPrefix, TXT questions through the stack and Storage.Matches run in " +
 		"child processes (GOMAXPROCS default, 2, 1, 4): every answer must be the exact answer of a version in force during the call; " +
+		"question: the same hosts in up to three lists behind a real filterstorage.Default and dnssvc.NewHandlers, asked in mixed case " +
+		"under eight combinations of the filtering group's switches, verdict read from the query log; " +
 		"a list case is non-trivial when it has a listed and an unlisted verdict and a " +
 		"true and a false Matches; distinct = distinct op logs"
 	m := hlib.StartModel(o.Model, "C11")
@@ -2649,6 +2679,12 @@ func main() {
 	}
 	snapshotCampaign(c, o.Rand("snapshot"), nSnap, snapScale, snapBudget)
 
+	nQ := 500
+	if o.Thorough() {
+		nQ = 8000
+	}
+	questionCampaign(c, o.Rand("question"), newQStacks(e), nQ)
+
 	// A matcher with a single, different suffix and the third storage.
 	e2 := newEnv(dir, []string{".hp.example"}, []int{2})
 	c2 := &runner{o: o, r: r, m: m, e: e2, ctx: c.ctx, flags: map[string]bool{}, psSet: map[string]bool{}}
@@ -2661,6 +2697,8 @@ func main() {
 		"subs.shape:private-hops=1/icann-labels=1", "subs.shape:private-hops=1/icann-labels=2",
 		"subs.shape:private-hops=2/icann-labels=1", "subs.shape:private-hops=2+gap/icann-labels=1",
 		"subs.shape:private-hops=0/icann-labels=0", "filter.matched_by_outer_private_suffix_domain",
+		"question.listed:" + string(filter.IDSafeBrowsing), "question.listed:" + string(filter.IDAdultBlocking),
+		"question.listed:" + string(filter.IDNewRegDomains), "question.none", "question.nothing_enabled", "txt.near_miss_name",
 	} {
 		if r.Distribution[need] == 0 {
 			r.Disagree("coverage-lost:"+need, "no case reached the class "+need+
